@@ -37,8 +37,12 @@ func genEvolveCase(t *rapid.T) EvolveCase {
 	n := rapid.IntRange(2, 3).Draw(t, "ninputs")
 	for i := 0; i < n; i++ {
 		in := EvolveIn{V: []string{"req", "opt", "none"}[rapid.IntRange(0, 2).Draw(t, "v")]}
-		k := 0
-		for j := rapid.IntRange(1, 12).Draw(t, "rows"); j > 0; j-- {
+		k := []int{0, 0, 500, 1500, 3000}[rapid.IntRange(0, 4).Draw(t, "base")] // partially overlapping key ranges
+		nrows := rapid.IntRange(1, 12).Draw(t, "rows")
+		if rapid.IntRange(0, 5).Draw(t, "long") == 0 {
+			nrows = rapid.IntRange(1024, 2600).Draw(t, "nlong") // a lone stretch of 1024+ rows: the sorted merge slices row ranges off its inputs
+		}
+		for j := nrows; j > 0; j-- {
 			k += rapid.IntRange(1, 4).Draw(t, "step")
 			in.Keys = append(in.Keys, 10*k+i)
 			in.Null = append(in.Null, rapid.IntRange(0, 2).Draw(t, "null") == 0)
@@ -96,7 +100,7 @@ func runEvolveCase(c EvolveCase, o *kit.Obs) (fl *kit.Failure) {
 			rows = append(rows, row)
 		}
 		var out bytes.Buffer
-		wo := []parquet.WriterOption{schema}
+		wo := []parquet.WriterOption{schema, parquet.PageBufferSize(512)} // several pages: range cuts are page-granular
 		if c.Sorted {
 			wo = append(wo, parquet.SortingWriterConfig(sortingCols)) // else no declared order: the merge concatenates
 		}
@@ -220,7 +224,7 @@ func runEvolveCase(c EvolveCase, o *kit.Obs) (fl *kit.Failure) {
 var evolveSpec = &kit.Spec[EvolveCase]{
 	Property: "C09",
 	Name:     "evolved-schemas",
-	Rule: "2-3 sorted input files (1-12 rows, unique keys) in which the payload column v is required, optional (with nulls) or absent, merged by MergeRowGroups with the schema the library derives or one declaring v optional / required, with k as sorting column or without any (concatenation), read through Rows() or written with WriteRowGroup and read back: " +
+	Rule: "2-3 sorted input files (1-12 rows, or 1024-2600 so that the sorted merge cuts row ranges off its inputs; unique keys) in which the payload column v is required, optional (with nulls) or absent, merged by MergeRowGroups with the schema the library derives or one declaring v optional / required, with k as sorting column or without any (concatenation), read through Rows() or written with WriteRowGroup and read back: " +
 		"all rows come out, in key order (resp. input order), each with its own v: written values present at the maximum definition level of the merged column, nulls and absent values null (zero when the merged column is required). Non-trivial = inputs disagree on v.",
 	Assumptions: []string{"a merge the library rejects is not a violation"},
 	Gen:         genEvolveCase,
